@@ -64,6 +64,9 @@ class VE(ASTNode):
     pass
 
 
+_STAMPS = itertools.count(1)
+
+
 # ---- transformation universe ---------------------------------------------------------------------------
 @dataclass(frozen=True)
 class TL(ASTNode):
@@ -86,6 +89,14 @@ class TP(ASTNode):
 
     def __len__(self) -> int:  # container-like: falsy in a boolean context while `items` is empty (may still hold other children)
         return len(self.items)
+
+    # a per-instance serial number in a field that is neither an init argument nor compared: the snapshot of the input tree
+    # notices if a transformation writes it (or anything else) back into an input node
+    stamp: int = dataclasses.field(default=0, init=False, compare=False)
+
+    def __post_init__(self) -> None:
+        ASTNode.__post_init__(self)
+        object.__setattr__(self, "stamp", next(_STAMPS))
 
 
 @dataclass(frozen=True)
@@ -124,7 +135,7 @@ class Boom(Exception):
 def make_visitor(rules: dict, strict: bool):
     methods = {"strict": strict}
 
-    def mk(rule):
+    def mk(rule, cname):
         if rule == "keep":
             return lambda self, node: self.generic_visit(node)
         if rule == "rewrite":
@@ -146,14 +157,18 @@ def make_visitor(rules: dict, strict: bool):
         if rule == "remove":
             return lambda self, node: None
         if rule == "raise":
-            def rs(self, node):
+            # the exception a visitor method raises is the user's: for two of the classes it is StopIteration (what next() on
+            # an exhausted iterator raises) - the one exception that iteration machinery wrapped around the call would swallow
+            def rs(self, node, cname=cname):
+                if cname in ("TS", "TQ", "TW"):
+                    raise StopIteration("raised by the visitor method")
                 raise Boom()
             return rs
         raise ValueError(rule)
 
     for cname, rule in rules.items():
         if rule != "none":
-            methods[f"visit_{cname}"] = mk(rule)
+            methods[f"visit_{cname}"] = mk(rule, cname)
     return type("V", (ASTTransformVisitor,), methods)()
 
 
@@ -251,7 +266,7 @@ def compare(res, exp, index, orig_ids, where="<root>"):
 def snapshot(index):
     snap = {}
     for p, n in index.items():
-        snap[p] = (id(n), n.id, n.content_id, NODE_REGISTRY.get(n.id) is n, tuple((f.name, id(getattr(n, f.name))) for f in dataclasses.fields(n)),
+        snap[p] = (id(n), n.id, n.content_id, NODE_REGISTRY.get(n.id) is n, tuple((f.name, id(getattr(n, f.name)), getattr(n, f.name) if isinstance(getattr(n, f.name), (int, str)) else None) for f in dataclasses.fields(n)),
                    tuple(tuple(id(x) for x in getattr(n, f.name)) for f in dataclasses.fields(n) if isinstance(getattr(n, f.name), tuple)))
     return snap
 
@@ -298,7 +313,7 @@ def check_transform(rec, d, rules, strict):
     try:
         res = v.transform(root)
         raised = None
-    except Boom:
+    except (Boom, StopIteration):
         res, raised = None, "Boom"
     except Exception as e:  # noqa: BLE001
         res, raised = None, type(e).__name__
